@@ -34,7 +34,7 @@ void * cstl_vector_at(struct cstl_vector * const v, const size_t i)
 static void cstl_vector_set_capacity(
     struct cstl_vector * const v, const size_t sz)
 {
-    void * e;
+    void * e = NULL;
 
     /*
      * this shouldn't be able to be triggered by the
@@ -47,9 +47,16 @@ static void cstl_vector_set_capacity(
     /*
      * the vector always (quietly) stores space for one extra
      * element at the end to use as scratch space for exchanging
-     * elements during sort and reverse operations
+     * elements during sort and reverse operations.
+     *
+     * if the number of bytes needed for that cannot be represented,
+     * the request cannot be satisfied; it is treated like a failed
+     * allocation (and must not wrap around to a smaller request)
      */
-    e = realloc(v->elem.base, (sz + 1) * v->elem.size);
+    if (sz < SIZE_MAX
+        && (v->elem.size == 0 || sz + 1 <= SIZE_MAX / v->elem.size)) {
+        e = realloc(v->elem.base, (sz + 1) * v->elem.size);
+    }
     if (e != NULL) {
         v->elem.base = e;
         v->cap = sz;
